@@ -49,8 +49,9 @@ def run(ctx):
     ctx.need(len(tx) == 1, 'one transmit state')
     T = tx[0]
     v = g.drivers('self.tx.valid', exact=True)
-    vals = {q.state_of(a): a.rhs.canon() for a in v if not a.guard}
-    ctx.ob('C04.valid', 'USBHandshakeGenerator.tx.valid', vals == {idle: '0', T: '1'} and len(v) == 2, None, 'tx.valid low in idle, high while transmitting: %s' % vals)
+    vals = q.flag_states(g, fsm, 'self.tx.valid')          # written in the states or as fsm.ongoing(...) outside: one answer
+    ctx.ob('C04.valid', 'USBHandshakeGenerator.tx.valid', bool(v) and vals == {s_: (s_ == T) for s_ in fsm.states}, v[0].loc if v else None,
+           'tx.valid low in idle, high while transmitting: %s' % vals)
     hold = state_outcomes(fsm, T, {'self.tx.ready': False})
     go = state_outcomes(fsm, T, {'self.tx.ready': True})
     ctx.ob('C04.held-until-ready', 'USBHandshakeGenerator.transmit', set(hold) == {None} and set(go) == {idle}, fsm.state_loc[T],
